@@ -2,6 +2,7 @@
 // length and sequence; every other entry is queued for sequence-guarded removal from the index (C01, parts of C09)
 #![allow(unused_imports, unused_variables, dead_code, unused_mut)]
 use vstd::prelude::*;
+use vstd::std_specs::iter::IteratorSpec;
 verus! {
 
 global size_of usize == 8;
@@ -63,6 +64,14 @@ impl FlushersT {
     { }
 }
 
+pub open spec fn reins_of(s: Submission, info: EntryInfo) -> bool {
+    match s { Submission::Reinsertion { reinsertion } => spec_pick(info.hash, info.addr.len as usize)
+        && reinsertion.hash == info.hash && reinsertion.sequence == info.addr.sequence && reinsertion.len == info.addr.len as usize }
+}
+pub open spec fn reins_ok(s: Submission, infos: Seq<EntryInfo>) -> bool { exists|i: int| 0 <= i < infos.len() && reins_of(s, #[trigger] infos[i]) }
+pub open spec fn unpick_of(u: (u64, Sequence), info: EntryInfo) -> bool { !spec_pick(info.hash, info.addr.len as usize) && u == (info.hash, info.addr.sequence) }
+pub open spec fn unpick_ok(u: (u64, Sequence), infos: Seq<EntryInfo>) -> bool { exists|i: int| 0 <= i < infos.len() && unpick_of(u, #[trigger] infos[i]) }
+
 //@region foyer-storage/src/engine/block/reclaimer.rs :: impl~ReclaimerTrait for Reclaimer/fn reclaim name=reclaim_entries start=/for info in infos \{/ stmts=1 rules=drop-tracing,de-async sub=@info\.addr\.len as _\)\.is_admitted@info.addr.len as usize).is_admitted@ sub=@bits::align_up\(PAGE, info\.addr\.len as _\)@bits::align_up(PAGE, info.addr.len as usize)@ sub=@block\.read\(Box::new\(buf\), (.*?) as _\)@block.verif_read(buf, \1 as u64)@ sub=@buf\.try_into_io_slice_mut\(\)\.unwrap\(\)\.into_io_slice\(\)@buf.verif_into_io_slice()@ sub=@buf\.slice\(\.\.(.*)\);@buf.verif_slice_to(\1);@ sub=@let flusher = flushers\[(.*?)\]\.clone\(\);@let verif_flusher_idx = \1;@ sub=@flusher\.submit\(@flushers.verif_submit_to(verif_flusher_idx, @
 //@head
 #[verifier::exec_allows_no_decreases_clause]
@@ -71,25 +80,19 @@ fn reclaim_entries(infos: Vec<EntryInfo>, reinsertion_picker: &PickerT, statisti
     requires old(flushers).n > 0, picked_count_in + infos@.len() <= usize::MAX,
     ensures
         // every submission made here re-inserts an entry of this block with its original hash / length / sequence
-        forall|j: int| old(flushers).log@.len() <= j < final(flushers).log@.len() ==> (match (#[trigger] final(flushers).log@[j]).1 {
-            Submission::Reinsertion { reinsertion } => exists|i: int| 0 <= i < infos@.len() && spec_pick(infos@[i].hash, infos@[i].addr.len as usize)
-                && reinsertion.hash == infos@[i].hash && reinsertion.sequence == infos@[i].addr.sequence && reinsertion.len == infos@[i].addr.len as usize }), // @label reinsertion_keeps_the_original_sequence
+        forall|j: int| old(flushers).log@.len() <= j < final(flushers).log@.len() ==> reins_ok((#[trigger] final(flushers).log@[j]).1, infos@), // @label reinsertion_keeps_the_original_sequence
         // every entry queued for removal carries its own (hash, sequence): the guarded removal cannot hit a newer version
-        forall|j: int| old(unpicked)@.len() <= j < final(unpicked)@.len() ==> exists|i: int| 0 <= i < infos@.len() && !spec_pick(infos@[i].hash, infos@[i].addr.len as usize)
-            && (#[trigger] final(unpicked)@[j]) == (infos@[i].hash, infos@[i].addr.sequence), // @label unpicked_entries_removed_under_their_own_sequence
+        forall|j: int| old(unpicked)@.len() <= j < final(unpicked)@.len() ==> unpick_ok(#[trigger] final(unpicked)@[j], infos@), // @label unpicked_entries_removed_under_their_own_sequence
         final(unpicked)@.subrange(0, old(unpicked)@.len() as int) == old(unpicked)@,
 //@prologue
     let mut picked_count = picked_count_in;
     let ghost log0 = flushers.log@;
     let ghost un0 = unpicked@;
     'reinsert: loop
-        invariant_except_break picked_count == picked_count_in, flushers.log@ == log0, unpicked@ == un0, flushers.n == old(flushers).n,
+        invariant_except_break picked_count == picked_count_in, flushers.log@ == log0, unpicked@ == un0, flushers.n == old(flushers).n, flushers.n > 0, picked_count_in + infos@.len() <= usize::MAX,
         ensures
-            forall|j: int| log0.len() <= j < flushers.log@.len() ==> (match (#[trigger] flushers.log@[j]).1 {
-                Submission::Reinsertion { reinsertion } => exists|i: int| 0 <= i < infos@.len() && spec_pick(infos@[i].hash, infos@[i].addr.len as usize)
-                    && reinsertion.hash == infos@[i].hash && reinsertion.sequence == infos@[i].addr.sequence && reinsertion.len == infos@[i].addr.len as usize }),
-            forall|j: int| un0.len() <= j < unpicked@.len() ==> exists|i: int| 0 <= i < infos@.len() && !spec_pick(infos@[i].hash, infos@[i].addr.len as usize)
-                && (#[trigger] unpicked@[j]) == (infos@[i].hash, infos@[i].addr.sequence),
+            forall|j: int| log0.len() <= j < flushers.log@.len() ==> reins_ok((#[trigger] flushers.log@[j]).1, infos@),
+            forall|j: int| un0.len() <= j < unpicked@.len() ==> unpick_ok(#[trigger] unpicked@[j], infos@),
             unpicked@.subrange(0, un0.len() as int) == un0,
     {
 //@loop 1 iter=it
@@ -98,12 +101,28 @@ fn reclaim_entries(infos: Vec<EntryInfo>, reinsertion_picker: &PickerT, statisti
                 picked_count <= picked_count_in + it.index@, picked_count_in + infos@.len() <= usize::MAX, it.index@ <= infos@.len(),
                 it.snapshot@.remaining() == infos@,
                 flushers.log@.len() >= log0.len(), unpicked@.len() >= un0.len(),
-                forall|j: int| log0.len() <= j < flushers.log@.len() ==> (match (#[trigger] flushers.log@[j]).1 {
-                    Submission::Reinsertion { reinsertion } => exists|i: int| 0 <= i < infos@.len() && spec_pick(infos@[i].hash, infos@[i].addr.len as usize)
-                        && reinsertion.hash == infos@[i].hash && reinsertion.sequence == infos@[i].addr.sequence && reinsertion.len == infos@[i].addr.len as usize }),
-                forall|j: int| un0.len() <= j < unpicked@.len() ==> exists|i: int| 0 <= i < infos@.len() && !spec_pick(infos@[i].hash, infos@[i].addr.len as usize)
-                    && (#[trigger] unpicked@[j]) == (infos@[i].hash, infos@[i].addr.sequence),
+                forall|j: int| log0.len() <= j < flushers.log@.len() ==> reins_ok((#[trigger] flushers.log@[j]).1, infos@),
+                forall|j: int| un0.len() <= j < unpicked@.len() ==> unpick_ok(#[trigger] unpicked@[j], infos@),
                 unpicked@.subrange(0, un0.len() as int) == un0,
+//@before /if reinsertion_picker\.filter\(/
+                    let ghost lg = flushers.log@;
+                    let ghost ug = unpicked@;
+                    proof { assert(info == infos@[it.index@ as int]); }
+//@after /picked_count \+= 1;/
+                        proof {
+                            assert(reins_of(flushers.log@.last().1, infos@[it.index@ as int]));
+                            assert forall|j: int| log0.len() <= j < flushers.log@.len() implies reins_ok((#[trigger] flushers.log@[j]).1, infos@) by {
+                                if j < lg.len() { assert(flushers.log@[j] == lg[j]); }
+                            }
+                        }
+//@after /unpicked\.push\(/
+                        proof {
+                            assert(unpick_of(unpicked@.last(), infos@[it.index@ as int]));
+                            assert forall|j: int| un0.len() <= j < unpicked@.len() implies unpick_ok(#[trigger] unpicked@[j], infos@) by {
+                                if j < ug.len() { assert(unpicked@[j] == ug[j]); }
+                            }
+                            assert(unpicked@.subrange(0, un0.len() as int) =~= un0);
+                        }
 //@tail
         break 'reinsert;
     }
